@@ -168,3 +168,42 @@ Proof.
 Qed.
 
 End Proofs.
+
+(* ---------------------------------------------------------------- non-vacuity: a concrete instance
+   M = rat (1 x 1 matrices), tr = cj = id, triangular solve = division.  A = 6 = 1 * 2 * 3 (LU),
+   = (-1) * (-6) (QR), = 2 * 3 * 2 / 2 ... ; all contracts hold and the conclusions are non-trivial. *)
+Section Instance.
+Local Notation Q := rat.
+Definition q_tsolve (lo un : bool) (F : Q) (t : trans) (b : Q) : Q := F^-1 * b.
+Definition q_ddiv (d b : Q) : Q := d^-1 * b.
+
+Lemma q_star : star_laws (@id Q) (@id Q).
+Proof. by split => // a b; rewrite mulrC. Qed.
+
+Lemma q_tri_ok lo un (F : Q) : F != 0 -> tri_ok id id q_tsolve lo un F.
+Proof. by move=> H [] b; rewrite /q_tsolve /= mulrA divff ?mul1r. Qed.
+
+Lemma q_ddiv_ok (F : Q) : F != 0 -> ddiv_ok q_ddiv F.
+Proof. by move=> H b; rewrite /q_ddiv mulrA divff ?mul1r. Qed.
+
+Lemma instance_lu : forall t b, solves id id (6%:Q) t (sol_LU id q_tsolve 1 2%:Q 3%:Q t b) b.
+Proof.
+  have E : 6%:Q = 1 * 2%:Q * 3%:Q by rewrite mul1r -natrM.
+  have E1 : (1 : Q) * 1 = 1 by rewrite mul1r.
+  exact: (lu_solves q_star E E1 E1 (erefl _) (q_tri_ok _ _ (isT : 2%:Q != 0)) (q_tri_ok _ _ (isT : 3%:Q != 0))).
+Qed.
+
+Lemma instance_lu_value : sol_LU id q_tsolve 1 2%:Q 3%:Q tT 12%:Q = 2%:Q.
+Proof. by vm_compute. Qed.
+
+Lemma instance_ldl : forall t b,
+  solves id id (12%:Q) t (sol_LDL id id q_tsolve true 2%:Q (3%:Q)^-1 1 t b) b.
+Proof.
+  have E : 12%:Q = 2%:Q * 3%:Q * (if true then hm id id 2%:Q else id 2%:Q) by rewrite /hm /= -!natrM.
+  have E1 : (1 : Q) * 1 = 1 by rewrite mul1r.
+  have D1 : (3%:Q)^-1 * 3%:Q = 1 by rewrite mulVf.
+  have D2 : 3%:Q * (3%:Q)^-1 = 1 by rewrite divff.
+  have T : tri_ok id id q_tsolve true true (1 * 2%:Q) by rewrite mul1r; exact: q_tri_ok.
+  move=> t b; exact: (@ldl_solves _ id id q_star q_tsolve (12%:Q) 2%:Q 3%:Q (3%:Q)^-1 1 true E E1 E1 (erefl _) D1 D2 T).
+Qed.
+End Instance.
